@@ -709,6 +709,28 @@ def run(tier, fx=None, ck=None, control=False):
                 ck.finding("R7.body-under-own-path", "R7.body-under-own-path/%s" % r.path, F.short_span(r.blocks[rb]["t"][6]),
                            "`%s` runs the module body while `current_module_path` does not (any longer) hold the module's own path: "
                            "`export { v } from \"./impl.ts\"` in `/app/lib/index.ts` is resolved at run time against the importer's directory" % r.path)
+    if own and not control:
+        # R3b: R3 makes every table key a result of ModulePath::resolve; one instance per file also needs that result to be canonical.  The deciding
+        # rules are C18's R1 (every ModulePath the resolver builds comes from the normaliser) and R2 (the normaliser's three segment classes): they are
+        # run here on the same facts and their instances and findings are taken over under this rule's name.
+        import c18
+        ckx = Check("C18", tier, "", [])
+        c18.run(tier, fx, ckx)
+        name3b = "R3b.resolve-is-canonical"
+        ck.rule(name3b, "two spellings of one file give one key: every ModulePath that resolve() builds holds the normaliser's result and the normaliser "
+                        "classifies every segment (C18 R1 + R2 on the same facts)", floor=5)
+        for rn in ("R1.normalised-returns", "R2.segment-classes"):
+            r_ = ckx.rules.get(rn)
+            if r_ is None:
+                ck.closed_fail.append("R3b: C18 rule %s produced nothing" % rn)
+                continue
+            bad = {f_[1] for f_ in ckx.findings if f_[0] == rn}
+            for ident in sorted(r_["nontrivial"]):
+                ck.instance(name3b, "%s: %s" % (rn.split(".")[0], ident), None, ok=True)
+            for f_ in ckx.findings:
+                if f_[0] == rn:
+                    ck.instance(name3b, "%s: %s" % (rn.split(".")[0], f_[1]), f_[2], ok=False)
+                    ck.finding(name3b, name3b + "/" + f_[1], f_[2], f_[3] + " - two spellings of one file become two modules, each requested and evaluated", f_[4])
     if not own:
         return None
     ctl = F.load_fixture()
